@@ -29,7 +29,8 @@ CONSTANTS Iter,        \* iterator objects
                        \* appended geometry), "wsrc" "wone" (weights of rows from another ensemble), "adopt" "refuse" (first
                        \* conformer of an ensemble without atoms), "ext0ok" "ext0err" (extend by nothing); TLC checks with all
           Deviations   \* named wrong behaviours (non-vacuity; formal description of the findings)
-VARIABLES ens,   \* [made, na, nb, C, Q, W]
+VARIABLES ens,   \* [made, na, nb, C, Q, W, S]   S = [made, C, Q, W]: the arrays of the ensemble this one was
+                 \*                              copy-constructed from (that object stays alive and is observed)
           its,   \* [Iter -> [pos : -1..MaxConf, seen : Seq(Nat)]]   pos = -1: no such iterator
           nt,    \* row mutations so far
           last   \* observation: the call just made, its arguments and outcome (not part of the VIEW)
@@ -38,7 +39,8 @@ sv   == <<ens, its, nt>>
 
 On(g)   == g \in Ops
 W1      == 1000
-NoEns   == [made |-> FALSE, na |-> 0, nb |-> 0, C |-> <<>>, Q |-> <<>>, W |-> <<>>]
+NoSrc   == [made |-> FALSE, C |-> <<>>, Q |-> <<>>, W |-> <<>>]
+NoEns   == [made |-> FALSE, na |-> 0, nb |-> 0, C |-> <<>>, Q |-> <<>>, W |-> <<>>, S |-> NoSrc]
 NoIt    == [pos |-> -1, seen |-> <<>>]
 Ones(n)  == [i \in 1..n |-> W1]
 Zeros(n) == [i \in 1..n |-> 0]
@@ -72,26 +74,28 @@ Fresh(e, a) == ens' = e /\ DropIts /\ UNCHANGED nt /\ Note(a, "ok")
 (* through the ensemble's setters (a new ensemble holds NaN / 0 rows)          *)
 NewAtoms(k, fc, fq) ==
   /\ On("grow") /\ ~ens.made /\ Len(fc) <= MaxConf /\ Len(fq) = Len(fc) /\ RowsOK(fc, k) /\ RowsOK(fq, k)
-  /\ Fresh([made |-> TRUE, na |-> k, nb |-> 0, C |-> fc, Q |-> fq, W |-> Ones(Len(fc))],
+  /\ Fresh([made |-> TRUE, na |-> k, nb |-> 0,  C |-> fc, Q |-> fq, W |-> Ones(Len(fc)), S |-> NoSrc],
            [act |-> "newatoms", k |-> k, C |-> fc, Q |-> fq])
 (* ConformerEnsemble(mol, n_conformers = n): n = 0 gives one conformer         *)
 NewMol(m, n, fc, fq) ==
   /\ On("grow") /\ ~ens.made /\ Len(fc) = (IF n = 0 THEN 1 ELSE n) /\ Len(fc) <= MaxConf /\ Len(fq) = Len(fc)
   /\ RowsOK(fc, m.na) /\ RowsOK(fq, m.na)
-  /\ Fresh([made |-> TRUE, na |-> m.na, nb |-> m.nb, C |-> fc, Q |-> fq, W |-> Ones(Len(fc))],
+  /\ Fresh([made |-> TRUE, na |-> m.na, nb |-> m.nb,  C |-> fc, Q |-> fq, W |-> Ones(Len(fc)), S |-> NoSrc],
            [act |-> "newmol", m |-> m, n |-> n, C |-> fc, Q |-> fq])
 (* ConformerEnsemble([mol, ...])                                               *)
 NewList(ms) ==
   /\ ~ens.made /\ Len(ms) \in 1..MaxConf /\ SameNa(ms, ms[1].na)
   /\ Fresh([made |-> TRUE, na |-> ms[1].na, nb |-> ms[1].nb, C |-> [i \in 1..Len(ms) |-> ms[i].g],
-            Q |-> [i \in 1..Len(ms) |-> ms[i].q], W |-> Ones(Len(ms))],
+            Q |-> [i \in 1..Len(ms) |-> ms[i].q], W |-> Ones(Len(ms)), S |-> NoSrc],
            [act |-> "newlist", ms |-> ms])
-(* ConformerEnsemble(ens): the new object replaces the old one in the test     *)
+(* ConformerEnsemble(ens): the new object becomes the ensemble under test, the *)
+(* old one stays alive as its source S; they must not share anything           *)
+SrcOf(e) == [made |-> TRUE, C |-> e.C, Q |-> e.Q, W |-> e.W]
 NewCopy ==
-  /\ On("grow") /\ ens.made
+  /\ On("copy") /\ ens.made
   /\ IF "CopyLosesWeights" \in Deviations
-       THEN Fresh([ens EXCEPT !.W = Ones(Len(ens.C))], [act |-> "newcopy"])
-       ELSE Fresh(ens, [act |-> "newcopy"])
+       THEN Fresh([ens EXCEPT !.W = Ones(Len(ens.C)), !.S = SrcOf(ens)], [act |-> "newcopy"])
+       ELSE Fresh([ens EXCEPT !.S = SrcOf(ens)], [act |-> "newcopy"])
 
 (* ---- append / extend ---------------------------------------------------- *)
 NoAtoms == ens.na = 0 /\ N = 0
@@ -153,6 +157,20 @@ CenterAt(a)  == /\ On("xform") /\ a \in 1..ens.na
                 /\ Xform([act |-> "center", a |-> a],
                          [i \in 1..N |-> MapRow(ens.C[i], LAMBDA p : SubV(p, ens.C[i][a]))])
 
+(* rotate(stack of k matrices) / translate(k vectors): one per conformer (this is  *)
+(* what align_to_ref_coords and center_at_atom pass); any other k >= 2 must be     *)
+(* refused - broadcasting one conformer to k would leave charges and weights behind *)
+StackOK(xs) == Len(xs) >= 1 /\ (Len(xs) # 1 \/ N = 1)
+Stacked(a, xs, F(_, _)) ==
+  /\ On("xform") /\ ens.made /\ StackOK(xs) /\ nt < MaxT
+  /\ IF Len(xs) = N THEN Xform(a, [i \in 1..N |-> MapRow(ens.C[i], LAMBDA p : F(p, xs[i]))])
+     ELSE IF "StackBroadcasts" \in Deviations /\ N = 1
+       THEN /\ ens' = [ens EXCEPT !.C = [i \in 1..Len(xs) |-> MapRow(ens.C[1], LAMBDA p : F(p, xs[i]))]]
+            /\ nt' = nt + 1 /\ UNCHANGED its /\ Note(a, "ok")
+     ELSE Fail(a)
+RotateStack(Rs)    == On("xform") /\ Stacked([act |-> "rotstack", Rs |-> Rs], Rs, RotP)
+TranslateStack(vs) == On("xform") /\ Stacked([act |-> "trstack", vs |-> vs], vs, AddV)
+
 (* ---- a conformer ens[i] is a view of row i ------------------------------ *)
 VOK(i) == ens.made /\ i \in 1..N
 VW(i)  == On("view") /\ VOK(i)
@@ -162,6 +180,8 @@ VWriteC(i, row) ==                                   \* ens[i].coords = row
   /\ VW(i) /\ Len(row) = ens.na /\ Mut
   /\ CASE "ViewIsCopy" \in Deviations -> UNCHANGED ens /\ Note(a, "ok")
        [] "WriteHitsAllRows" \in Deviations -> ens' = [ens EXCEPT !.C = [j \in 1..N |-> row]] /\ Note(a, "ok")
+       [] "CopySharesBuffers" \in Deviations /\ ens.S.made /\ i <= Len(ens.S.C) ->
+            ens' = [ens EXCEPT !.C[i] = row, !.S.C[i] = row] /\ Note(a, "ok")
        [] OTHER -> ens' = [ens EXCEPT !.C[i] = row] /\ Note(a, "ok")
 VWriteQ(i, qrow) ==                                  \* ens[i].atomic_charges = qrow
   LET a == [act |-> "vwq", i |-> i, row |-> qrow] IN
@@ -178,6 +198,18 @@ VTranslate(i, v) ==                                  \* ens[i].translate(v): a M
 SetW(i, w) ==                                        \* ens.weights[i] = w
   /\ VW(i) /\ i <= Len(ens.W) /\ Mut
   /\ ens' = [ens EXCEPT !.W[i] = w] /\ Note([act |-> "setw", i |-> i, w |-> w], "ok")
+
+(* ---- writes through the SOURCE of a copy-constructed ensemble ------------- *)
+SOK(i) == On("copy") /\ ens.made /\ ens.S.made /\ i \in 1..Len(ens.S.C)
+SrcWriteC(i, row) == /\ SOK(i) /\ Len(row) = ens.na /\ Mut              \* src[i].coords = row
+                     /\ ens' = [ens EXCEPT !.S.C[i] = row] /\ Note([act |-> "swc", i |-> i, row |-> row], "ok")
+SrcWriteQ(i, qrow) == /\ SOK(i) /\ Len(qrow) = ens.na /\ Mut            \* src[i].atomic_charges = qrow
+                      /\ ens' = [ens EXCEPT !.S.Q[i] = qrow] /\ Note([act |-> "swq", i |-> i, row |-> qrow], "ok")
+SrcSetW(i, w) == /\ SOK(i) /\ Mut                                       \* src.weights[i] = w
+                 /\ ens' = [ens EXCEPT !.S.W[i] = w] /\ Note([act |-> "ssw", i |-> i, w |-> w], "ok")
+SrcTranslate(v) == /\ On("copy") /\ ens.made /\ ens.S.made /\ Mut      \* src.translate(v)
+                   /\ ens' = [ens EXCEPT !.S.C = MapAll(@, LAMBDA p : AddV(p, v))]
+                   /\ Note([act |-> "str", v |-> v], "ok")
 
 (* ---- iteration: every iter(ens) has its own cursor ----------------------- *)
 Started == {it \in Iter : its[it].pos >= 0}
@@ -243,6 +275,7 @@ ListVal(ms) == [na |-> ms[1].na, nb |-> ms[1].nb, C |-> [i \in 1..Len(ms) |-> ms
                 Q |-> [i \in 1..Len(ms) |-> ms[i].q], W |-> [i \in 1..Len(ms) |-> 250 * i]]
 ExtendOther(ms) == SameNa(ms, ms[1].na) /\ ExtendEns(ListVal(ms), "other")
 ConfIdx == 1..MaxConf                                      \* constant bounds: TLC then reports coverage per action
+Stacks(S) == UNION {[1..k -> S] : k \in 1..MaxConf}
 AtomIdx == 1..(CHOOSE k \in NaSet : \A j \in NaSet : j <= k)
 Next ==
   \/ NewAtoms(0, <<>>, <<>>)
@@ -259,6 +292,12 @@ Next ==
   \/ \E v \in VecPool : Translate(v)
   \/ \E R \in RotPool : Rotate(R)
   \/ \E a \in AtomIdx : CenterAt(a)
+  \/ \E Rs \in Stacks(RotPool) : RotateStack(Rs)
+  \/ \E vs \in Stacks(VecPool) : TranslateStack(vs)
+  \/ \E i \in ConfIdx, m \in PoolSet : SrcWriteC(i, m.g)
+  \/ \E i \in ConfIdx, m \in PoolSet : SrcWriteQ(i, Q2(m.q))
+  \/ \E i \in ConfIdx, w \in WPool : SrcSetW(i, w)
+  \/ \E v \in VecPool : SrcTranslate(v)
   \/ \E i \in ConfIdx, m \in PoolSet : VWriteC(i, m.g)
   \/ \E i \in ConfIdx, m \in PoolSet : VWriteQ(i, Q2(m.q))
   \/ \E i \in ConfIdx, b \in AtomIdx, v \in VecPool : VSetAtom(i, b, v)
@@ -279,7 +318,7 @@ Spec == Init /\ [][Next]_vars
 (* rows as read through the conformers ens[i] (held views and fresh ones)      *)
 Obs == [made |-> ens.made, na |-> ens.na, nb |-> ens.nb,
         shC |-> <<Len(ens.C), ens.na, 3>>, shQ |-> <<Len(ens.Q), ens.na>>, shW |-> <<Len(ens.W)>>,
-        C |-> ens.C, Q |-> ens.Q, W |-> ens.W,
+        C |-> ens.C, Q |-> ens.Q, W |-> ens.W, src |-> ens.S,
         v |-> [i \in 1..Len(ens.C) |-> [c |-> ens.C[i], q |-> IF i <= Len(ens.Q) THEN ens.Q[i] ELSE <<>>,
                                         na |-> ens.na, nb |-> ens.nb]]]
 
@@ -305,8 +344,13 @@ WriteThrough ==
      /\ (last'.act = "vsa" => ens'.C[last'.i][last'.b] = last'.p)]_vars
 (* collective transformations touch every coordinate row and only coordinates  *)
 TransformsOnlyCoords ==
-  [][last'.act \in {"scale", "invert", "translate", "rotate", "center"} =>
-        /\ ens'.Q = ens.Q /\ ens'.W = ens.W /\ Len(ens'.C) = N /\ ens'.na = ens.na /\ last'.out = "ok"]_vars
+  [][last'.act \in {"scale", "invert", "translate", "rotate", "center", "rotstack", "trstack"} /\ last'.out = "ok" =>
+        /\ ens'.Q = ens.Q /\ ens'.W = ens.W /\ Len(ens'.C) = N /\ ens'.na = ens.na]_vars
+SingleTransformsSucceed == [][last'.act \in {"scale", "invert", "translate", "rotate", "center"} => last'.out = "ok"]_vars
+StackIsRowwise ==
+  [][(last'.act = "rotstack" /\ last'.out = "ok") =>
+        /\ Len(last'.Rs) = N
+        /\ \A i \in 1..N : \A a \in 1..Len(ens.C[i]) : ens'.C[i][a] = RotP(ens.C[i][a], last'.Rs[i])]_vars
 TranslateIsUniform ==
   [][last'.act = "translate" => \A i \in 1..N : \A a \in 1..Len(ens.C[i]) : ens'.C[i][a] = AddV(ens.C[i][a], last'.v)]_vars
 (* growing keeps what was there and adds exactly the rows given                 *)
@@ -316,7 +360,11 @@ GrowKeepsOld ==
         IsPrefix(ens.C, ens'.C) /\ IsPrefix(ens.Q, ens'.Q) /\ IsPrefix(ens.W, ens'.W)]_vars
 AppendAddsTheRow ==
   [][(last'.act = "append" /\ last'.out = "ok") => (Len(ens'.C) = N + 1 /\ ens'.C[N + 1] = last'.m.g)]_vars
-CopyIsFaithful == [][last'.act = "newcopy" => ens' = ens]_vars
+SrcActs == {"swc", "swq", "ssw", "str"}
+CopyIsFaithful == [][last'.act = "newcopy" => ens' = [ens EXCEPT !.S = SrcOf(ens)]]_vars
+(* the copy and its source are independent objects: a write reaches exactly one   *)
+SourceUntouched == [][last'.act \notin (SrcActs \cup {"newcopy"}) => ens'.S = ens.S]_vars
+CopyUntouched   == [][last'.act \in SrcActs => ens' = [ens EXCEPT !.S = ens'.S]]_vars
 FailedOpIsNoOp == [][last'.out \in {"error", "stop"} => ens' = ens]_vars
 ReadsChangeNothing == [][last'.act \in {"dump", "ser", "cdump", "cser", "slice", "start", "next"} => ens' = ens]_vars
 (* every conformer can be written, the ensemble can be written and stored       *)
